@@ -8,8 +8,9 @@
 //
 // A history names the front end its kernel-facing calls are delivered
 // through: "direct" (the virtual.Directory API), "fuse"
-// (fuse.NewSimpleRawFileSystem, front_fuse.go) or "nfs41" (NewNFS41Program
-// COMPOUNDs over NewNFSHandleAllocator, front_nfs.go).  What the front end
+// (fuse.NewSimpleRawFileSystem, front_fuse.go) or "nfs41" / "nfs40"
+// (NewNFS41Program / NewNFS40Program COMPOUNDs over NewNFSHandleAllocator,
+// front_nfs.go).  What the front end
 // answers is canonicalised (front.go, coq/theories/Dir/Front.v) into the
 // same case record and judged by the same Dir.Corr.check_case.
 package main
@@ -63,7 +64,7 @@ type hop struct {
 
 type history struct {
 	CI    bool   `json:"ci"`
-	Front string `json:"front,omitempty"` // "" / "direct", "fuse", "nfs41"
+	Front string `json:"front,omitempty"` // "" / "direct", "fuse", "nfs41", "nfs40"
 	Ops   []hop  `json:"ops"`
 }
 
@@ -94,6 +95,9 @@ func (area) Generate(r *rng.R, thorough bool, index int) json.RawMessage {
 	}
 	if x := r.Intn(100); x >= cut+(100-cut)/2 {
 		h.Front = "nfs41"
+		if r.Intn(3) == 0 {
+			h.Front = "nfs40" // NFSv4.0 has its own copies of the directory operations
+		}
 	} else if x >= cut {
 		h.Front = "fuse"
 	}
@@ -639,7 +643,7 @@ func (area) Execute(raw json.RawMessage) (term string, info *hcommon.Info, err e
 	case "fuse":
 		fuseAlloc = virtual.NewFUSEHandleAllocator(&counterRNG{})
 		w.realAlloc = fuseAlloc
-	case "nfs41":
+	case "nfs41", "nfs40":
 		nfsAlloc = virtual.NewNFSHandleAllocator(&counterRNG{})
 		w.realAlloc = nfsAlloc
 	default:
@@ -672,9 +676,13 @@ func (area) Execute(raw json.RawMessage) (term string, info *hcommon.Info, err e
 	switch front {
 	case "fuse":
 		fe = newFuseFront(w, root, fuseAlloc, protocol)
-	case "nfs41":
+	case "nfs41", "nfs40":
 		var err error
-		if fe, err = newNFSFront(w, root, nfsAlloc, protocol); err != nil {
+		minor := uint32(1)
+		if front == "nfs40" {
+			minor = 0
+		}
+		if fe, err = newNFSFront(w, root, nfsAlloc, protocol, minor); err != nil {
 			return "", nil, err
 		}
 	}
